@@ -41,7 +41,7 @@ func checkC07(c *Ctx) {
 		"evaluates every finest cell of the lattice itself - every generic sign-changing cell must own output, every output item must lie in a " +
 		"sign-changing cell. Non-trivial = the pruned render used strictly fewer evaluations than the unpruned one and emitted >= 1 item.")
 	c.Assume("the shapes are 1-Lipschitz (the property's premise): exact primitives and min/max compositions of them")
-	n3 := c.Pick(90, 3000)
+	n3 := c.Pick(90, 2000)
 	n2 := c.Pick(200, 5000)
 	depths := map[string]bool{}
 	parallelFor(n3, func(i int) { c07Run3(c, i, depths) })
@@ -174,7 +174,7 @@ func c07Shape3(r *Rng, lat *lattice3, bb sdf.Box3, family int) (func(p v3.Vec) f
 	}
 }
 
-var c07Gate = newGate(3_000_000) // sum of cells^3 in flight: the unpruned render keeps every node in the renderer's cache
+var c07Gate = newGate(12_000_000) // sum of lattice nodes in flight: the unpruned render keeps every node in the renderer's cache (~225 bytes each)
 
 type latKey3 struct {
 	bb    sdf.Box3
@@ -212,7 +212,7 @@ func c07Run3(c *Ctx, i int, depths map[string]bool) {
 		cells = 64 // deep tree: a coarse cube much larger than a resolvable feature
 	}
 	if !c.Quick && r.P(0.25) {
-		cells = pickOne(r, []int{48, 64, 80, 100, 128})
+		cells = pickOne(r, []int{48, 64, 80, 100, 120})
 	}
 	// the lattice depends only on (box, cells): boxes come from a small per-resolution pool so that the
 	// (expensive, fully unpruned) learning render is shared between cases
@@ -222,7 +222,7 @@ func c07Run3(c *Ctx, i int, depths map[string]bool) {
 	ctr := v3.Vec{X: rb.R(-2, 2) * scale, Y: rb.R(-2, 2) * scale, Z: rb.R(-2, 2) * scale}
 	bb := sdf.Box3{Min: ctr.Sub(half), Max: ctr.Add(half)}
 	rd := render.NewMarchingCubesOctree(cells)
-	defer c07Gate.enter(int64(cells) * int64(cells) * int64(cells))()
+	defer c07Gate.enter(octreeNodes(cells))()
 	lat, err := cachedLattice3(rd, bb, cells)
 	if err != nil {
 		c.Inconclusive("learn3: " + err.Error())
